@@ -295,13 +295,15 @@ CLAIMS = {
              "the tables well-formed and asks for a wake-up strictly in the future; by induction over any history of sends, frames and "
              "arbitrarily pre-empted passes the thread never dies; a receive session that is not due is left exactly as it is by the pass "
              "(no packet is lost to it); the J1939-21 receive thread never changes a table without requesting a pass, so a session it made "
-             "due behind the pass is picked up at once.  Partial: pre-emption INSIDE the handling of one session (line level), the ECU "
+             "due behind the pass is picked up at once; the ECU thread blocks on its wake-up queue only with a strictly positive timeout, for "
+             "every wake-up time the link layer asked for (c08_wait_timeout_positive; queue.get raises on a negative one).  Partial: pre-emption INSIDE the handling of one session (line level), the ECU "
              "timer loop and the sleep/wake-up race are decided on the real code by the line-tracer oracle, not by theorems; 'same outcome' "
              "is established there as intact exactly-once delivery + idle tables + live thread.",
         note="Proved for the code as repaired by D19; D20 (J1939-22 state after send) found and repaired through the oracle. Tie: recorded "
              "scripts in which the REAL async_job_thread is pre-empted from a line tracer before its K-th lookup and the frame is handled "
              "re-entrantly, lock-step against tickPre; oracle: every executed source line x occurrence as pre-emption point with 0.2..5 ms "
-             "holds on real stacks (exhaustive in thorough), two pre-emptions sampled.",
+             "holds on real stacks (exhaustive in thorough), two pre-emptions sampled; the ECU-pass scripts of C12 (timer pass + sleep decision, "
+             "real _async_job_thread against Ecu.Core.pass) are part of this check's correspondence.",
         technique="Lean 4 loop inductions over stale snapshots + history induction; line-tracer pre-emption correspondence; exhaustive line-level oracle",
         design="§8 C08"),
 }
